@@ -80,7 +80,7 @@ impl Scenario for C10 {
         "exploration"
     }
     fn rule(&self) -> String {
-        "Three families. scalar-sweep: all 1,114,112 code points (surrogates skipped; 64 per plan) as `Title:a<c>b` / `Artist:<c>` metadata, decoded in UTF-8, UTF-8+BOM, UTF-16LE+BOM, UTF-16BE+BOM: all four results identical (exhaustive over single scalars in both tiers). equiv: bundled and generated texts (non-ASCII metadata) in the four encodings under one random delivery schedule, random decoder: identical fingerprints. corrupt: storage with injected invalid UTF-8, lone surrogates, odd tail bytes or UTF-16 truncation (every truncation length of every small file's UTF-16 transcodings in the thorough tier): result == decode(UTF-8 BOM + std lossy conversion of the payload). Also enumerated: every sequence of <= 5 UTF-16 code units over {high, low, highest high, lowest low, 'a', LF} in LE and BE against the std lossy conversion; whole lines of CR/LF/NUL-byte characters. Round 8: lines longer than 64 KiB in only some encodings; tricky-text corpus files. Round 10: texts beginning with U+FEFF (three BOM-marked encodings); bursts of invalid bytes. distinct_nontrivial = distinct plan hashes that are not plain-ASCII UTF-8 without BOM.".into()
+        "Three families. scalar-sweep: all 1,114,112 code points (surrogates skipped; 64 per plan) as `Title:a<c>b` / `Artist:<c>` metadata, decoded in UTF-8, UTF-8+BOM, UTF-16LE+BOM, UTF-16BE+BOM: all four results identical (exhaustive over single scalars in both tiers). equiv: bundled and generated texts (non-ASCII metadata) in the four encodings under one random delivery schedule, random decoder: identical fingerprints. corrupt: storage with injected invalid UTF-8, lone surrogates, odd tail bytes or UTF-16 truncation (every truncation length of every small file's UTF-16 transcodings in the thorough tier): result == decode(UTF-8 BOM + std lossy conversion of the payload). Also enumerated: every sequence of <= 5 UTF-16 code units over {high, low, highest high, lowest low, 'a', LF} in LE and BE against the std lossy conversion; whole lines of CR/LF/NUL-byte characters. Round 8: lines longer than 64 KiB in only some encodings; tricky-text corpus files. Round 10: texts beginning with U+FEFF (three BOM-marked encodings); bursts of invalid bytes. Round 13: thousands of leading blank lines. distinct_nontrivial = distinct plan hashes that are not plain-ASCII UTF-8 without BOM.".into()
     }
     fn assumptions(&self) -> Vec<String> {
         vec![
